@@ -104,12 +104,39 @@ static rc::Gen<cw::W> wideW() {
     return w;
   });
 }
+// one or two fixed-width columns written in batches that grow from hundreds to thousands of values with small pages: buffers
+// are filled, flushed, cleared and must then grow beyond their old capacity on the next batch
+static rc::Gen<cw::W> growW() {
+  return rc::gen::exec([]() {
+    cw::W w;
+    w.fs.root.name = "schema"; w.fs.root.group = true;
+    int ncols = *irange(1, 2);
+    for (int i = 0; i < ncols; i++) w.fs.root.kids.push_back(gf::leafNode("c" + std::to_string(i), *irange(0, 1), *rc::gen::element<int>(pq::INT32, pq::INT64, pq::DOUBLE), 0));
+    auto lv = pw::leaves(w.fs.root);
+    w.codec = *rc::gen::element(0, 1, 5); w.page_size = *rc::gen::element<int64_t>(512, 1024, 4096); w.order = (uint32_t)*irange(1, 1 << 30);
+    std::vector<int> part = {(int)*irange(100, 600), (int)*irange(1500, 3500), (int)*irange(5000, 9000)};
+    if (*irange(0, 1)) part.insert(part.begin(), (int)*irange(1, 40));
+    size_t rows = 0; for (int k : part) rows += (size_t)k;
+    w.fs.rg_rows.push_back((int64_t)rows);
+    std::vector<pw::ChunkSpec> rg; std::vector<std::vector<int>> pc; std::vector<int> nl;
+    for (auto &lf : lv) {
+      pw::ChunkSpec cs; cs.n = rows;
+      if (lf.max_def) for (size_t i = 0; i < rows; i++) cs.def.push_back((int16_t)(i % 7 != 3));
+      size_t w8 = lf.type == pq::INT32 ? 4 : 8;
+      for (size_t i = 0; i < rows; i++) if (!lf.max_def || cs.def[i]) { Bytes v(w8, 0); v[0] = (uint8_t)i; v[1] = (uint8_t)(i >> 8); cs.values.push_back(v); }
+      pw::PageSpec pg; pg.end = rows; cs.pages.push_back(pg);
+      rg.push_back(cs); nl.push_back(0); pc.push_back(part);
+    }
+    w.fs.row_groups.push_back(rg); w.parts.push_back(pc); w.nolevels.push_back(nl); w.extra_nrg.push_back(0);
+    return w;
+  });
+}
 static rc::Gen<S> genS() {
   return rc::gen::mapcat(rc::gen::weightedOneOf<int>({{1, rc::gen::just(0)}, {3, rc::gen::just(1)}, {2, rc::gen::just(2)}, {3, rc::gen::just(3)}, {3, rc::gen::just(4)}, {3, rc::gen::just(5)}, {1, rc::gen::just(6)}}), [](int kind) -> rc::Gen<S> {
     if (kind == 0 || kind == 6) return rc::gen::map(irange(0, 140), [kind](int n) { S s; s.kind = kind; s.ncols = n; return s; });
     if (kind == 4) { gf::Opts o; o.max_cols = 3; o.max_rows = 20; o.max_rgs = 2; o.max_pages = 3; o.thrift_extras = false; o.layouts = false; o.stats = true;
       return rc::gen::map(rc::gen::tuple(gf::specGen(o), irange(0, 2), irange(1, 9)), [](const std::tuple<pw::FileSpec, int, int> &t) { S s; s.kind = 4; s.fs = std::get<0>(t); s.mode = std::get<1>(t); s.batch = std::get<2>(t); return s; }); }
-    return rc::gen::map(rc::gen::tuple(rc::gen::weightedOneOf<cw::W>({{6, tableW()}, {1, wideW()}}), irange(0, 2), rc::gen::weightedOneOf<int>({{3, irange(1, 9)}, {2, irange(30, 120)}})), [kind](const std::tuple<cw::W, int, int> &t) { S s; s.kind = kind; s.w = std::get<0>(t); s.mode = std::get<1>(t); s.batch = std::get<2>(t); s.ncols = 0; return s; });
+    return rc::gen::map(rc::gen::tuple(rc::gen::weightedOneOf<cw::W>({{12, tableW()}, {2, wideW()}, {kind <= 2 ? 2 : 0, growW()}}), irange(0, 2), rc::gen::weightedOneOf<int>({{3, irange(1, 9)}, {2, irange(30, 120)}})), [kind](const std::tuple<cw::W, int, int> &t) { S s; s.kind = kind; s.w = std::get<0>(t); s.mode = std::get<1>(t); s.batch = std::get<2>(t); s.ncols = 0; return s; });
   });
 }
 
